@@ -13,6 +13,12 @@ Model/Step.vos Model/Step.vok Model/Step.required_vos: Model/Step.v Model/Val.vo
 Model/Oracle.vo Model/Oracle.glob Model/Oracle.v.beautified Model/Oracle.required_vo: Model/Oracle.v Model/Val.vo Model/Syntax.vo Model/World.vo Model/Step.vo
 Model/Oracle.vio: Model/Oracle.v Model/Val.vio Model/Syntax.vio Model/World.vio Model/Step.vio
 Model/Oracle.vos Model/Oracle.vok Model/Oracle.required_vos: Model/Oracle.v Model/Val.vos Model/Syntax.vos Model/World.vos Model/Step.vos
+Proofs/Contract.vo Proofs/Contract.glob Proofs/Contract.v.beautified Proofs/Contract.required_vo: Proofs/Contract.v Model/Val.vo Model/Syntax.vo Model/World.vo Model/Step.vo Model/Oracle.vo
+Proofs/Contract.vio: Proofs/Contract.v Model/Val.vio Model/Syntax.vio Model/World.vio Model/Step.vio Model/Oracle.vio
+Proofs/Contract.vos Proofs/Contract.vok Proofs/Contract.required_vos: Proofs/Contract.v Model/Val.vos Model/Syntax.vos Model/World.vos Model/Step.vos Model/Oracle.vos
+Props/C01.vo Props/C01.glob Props/C01.v.beautified Props/C01.required_vo: Props/C01.v Model/Val.vo Model/Syntax.vo Model/World.vo Model/Step.vo Model/Oracle.vo Proofs/Contract.vo
+Props/C01.vio: Props/C01.v Model/Val.vio Model/Syntax.vio Model/World.vio Model/Step.vio Model/Oracle.vio Proofs/Contract.vio
+Props/C01.vos Props/C01.vok Props/C01.required_vos: Props/C01.v Model/Val.vos Model/Syntax.vos Model/World.vos Model/Step.vos Model/Oracle.vos Proofs/Contract.vos
 Extract/Extract.vo Extract/Extract.glob Extract/Extract.v.beautified Extract/Extract.required_vo: Extract/Extract.v Model/Val.vo Model/Syntax.vo Model/World.vo Model/Step.vo Model/Oracle.vo
 Extract/Extract.vio: Extract/Extract.v Model/Val.vio Model/Syntax.vio Model/World.vio Model/Step.vio Model/Oracle.vio
 Extract/Extract.vos Extract/Extract.vok Extract/Extract.required_vos: Extract/Extract.v Model/Val.vos Model/Syntax.vos Model/World.vos Model/Step.vos Model/Oracle.vos
